@@ -198,10 +198,16 @@ class Structure:
         out = []
         for n, i in enumerate(idx):
             r = self.records[i]
-            out.append(
-                fmt_atom(n + 1, r["name"], r["resn"], r["chain"], r["seq"], r["icode"],
-                         r["xyz"], rec=r["rec"], alt=r["alt"])  # fmt: skip
-            )
+            ln = fmt_atom(n + 1, r["name"], r["resn"], r["chain"], r["seq"], r["icode"],
+                          r["xyz"], rec=r["rec"], alt=r["alt"])  # fmt: skip
+            cols = getattr(self, "columns", None)
+            if cols == "no-element":
+                ln = ln[:76] + "  "  # element symbol absent (older files, many modelling programs)
+            elif cols == "short":
+                ln = ln[:54]  # nothing after the coordinates
+            elif cols == "segid":
+                ln = ln[:72] + "PROA" + ln[76:]
+            out.append(ln)
             if i in self.ters:
                 out.append("TER")
         if end:
@@ -239,6 +245,7 @@ def _place_contact(P1, P2, target, dirv, gap):
 
 def materialise(desc) -> Structure:
     s = Structure()
+    s.columns = desc.get("columns")
     built = []
     placed_xyz = []  # arrays of already placed heavy atoms
     window_waters = []
